@@ -12,7 +12,7 @@
 ; AX one-file-per-layer: the properties quantify over layouts in which each layer name is provided by exactly one file
 (assert (forall ((p String) (e1 String) (e2 String))
   (! (=> (and (not (= (fmtByName e1) 0)) (not (= (fmtByName e2) 0))
-              (not (= (statE (str.++ p "." e1)) osErrNotExist)) (not (= (statE (str.++ p "." e2)) osErrNotExist))) (= e1 e2))
+              (not (isErr (statE (str.++ p "." e1)))) (not (isErr (statE (str.++ p "." e2))))) (= e1 e2))
      :pattern ((statE (str.++ p "." e1)) (statE (str.++ p "." e2))))))
 ; AX osErrNotExist-is-an-error
 (assert ((_ is E) osErrNotExist))
